@@ -12,7 +12,6 @@ import time
 ROOT = os.path.dirname(os.path.dirname(os.path.abspath(__file__)))
 COQ = os.path.join(ROOT, "coq")
 DRIVER_DIR = os.path.join(ROOT, "driver")
-DRIVER = os.path.join(DRIVER_DIR, "driver.exe")
 HARNESS = os.path.join(ROOT, "harness")
 TARGET = os.path.join(ROOT, "target")
 WORK = os.path.join(ROOT, "work")
@@ -136,8 +135,7 @@ def coq_prove(ctx, prop_file, theorems):
     rel = os.path.relpath(prop_file, COQ)
     vo = rel[:-2] + ".vo"
     with Lock("coq"):
-        if not os.path.exists(os.path.join(COQ, "Makefile")):
-            sh("coq_makefile -f _CoqProject -o Makefile", cwd=COQ)
+        gen_coqproject()
         # the theorem file itself is always recompiled so that Print Assumptions output is fresh
         for ext in (".vo", ".glob", ".vos", ".vok"):
             try:
@@ -205,23 +203,39 @@ def newest(paths):
     return max((os.path.getmtime(p) for p in paths if os.path.exists(p)), default=0)
 
 
-def build_driver(ctx):
-    """Extract the model (needs the .vo of everything Extract.v imports) and build the OCaml driver."""
+def gen_coqproject():
+    """_CoqProject lists every .v file under coq/ except the Extract_*.v files (extraction is run
+    separately into driver/gen).  Regenerated (with the Makefile) only when the list changes."""
+    files = [os.path.relpath(f, COQ) for f in coq_files() if not os.path.basename(f).startswith("Extract_")]
+    text = "-Q . LLF\n-arg -w -arg -notation-overridden,-deprecated-hint-without-locality,-deprecated-instance-without-locality,-deprecated-syntactic-definition\n" + "\n".join(files) + "\n"
+    p = os.path.join(COQ, "_CoqProject")
+    if not os.path.exists(p) or open(p).read() != text or not os.path.exists(os.path.join(COQ, "Makefile")):
+        with open(p, "w") as fh:
+            fh.write(text)
+        sh("coq_makefile -f _CoqProject -o Makefile", cwd=COQ)
+
+
+def build_driver(ctx, name):
+    """Extract the model (needs the .vo of everything Extract_<name>.v imports) and build driver/<name>.exe."""
+    exe = os.path.join(DRIVER_DIR, name + ".exe")
+    ext = os.path.join(COQ, "Extract_%s.v" % name)
     with Lock("coq"):
-        deps = [d for d in coq_deps(os.path.join(COQ, "Extract.v")) if not d.endswith("Extract.v")]
+        gen_coqproject()
+        deps = [d for d in coq_deps(ext) if d != ext]
         vos = [os.path.relpath(d, COQ)[:-2] + ".vo" for d in deps]
         rc, out = sh(["make", "-j%d" % NPROC] + vos, cwd=COQ, timeout=3000)
         if rc != 0:
             ctx.notes.append("model build failed: " + out[-1500:])
-            return False
-        srcs = [os.path.join(COQ, v) for v in vos] + [os.path.join(COQ, "Extract.v")] + \
-               [os.path.join(DRIVER_DIR, f) for f in os.listdir(DRIVER_DIR) if f.endswith(".ml") or f.endswith(".sh")]
-        if os.path.exists(DRIVER) and os.path.getmtime(DRIVER) >= newest(srcs):
-            return True
-        rc, out = sh(["sh", os.path.join(DRIVER_DIR, "build.sh")], timeout=1800)
+            return None
+        srcs = [os.path.join(COQ, v) for v in vos] + [ext] + \
+               [os.path.join(DRIVER_DIR, f) for f in ("conv.ml", "dcommon.ml", name + ".ml", "build.sh")]
+        if os.path.exists(exe) and os.path.getmtime(exe) >= newest(srcs):
+            return exe
+        rc, out = sh(["sh", os.path.join(DRIVER_DIR, "build.sh"), name], timeout=1800)
         if rc != 0:
             ctx.notes.append("driver build failed: " + out[-1500:])
-        return rc == 0
+            return None
+    return exe
 
 
 def feat_dir(features):
@@ -244,8 +258,8 @@ def build_harness(ctx, bins, features=()):
     return os.path.join(tdir, "release")
 
 
-def run_driver(ctx, suite, transcript, extra=(), timeout=3000):
-    rc, out = sh([DRIVER, suite, transcript] + list(extra), timeout=timeout)
+def run_driver(ctx, exe, suite, transcript, extra=(), timeout=3000):
+    rc, out = sh([exe, suite, transcript] + list(extra), timeout=timeout)
     mism, summary = [], {}
     for ln in out.split("\n"):
         if ln.startswith("MISMATCH "):
